@@ -537,8 +537,11 @@ static void Table_Rem(var self, var key) {
 static var Table_Get(var self, var key) {
   struct Table* t = self;
   
+  /* A key handed out by the iteration: its value sits in the same slot.
+  ** (A pointer to a stored value is an ordinary key and is looked up) */
   if (key >= t->data and ((char*)key) < ((char*)t->data) + t->nslots * Table_Step(self)) {
-    return Table_Val(self, (((char*)key) - ((char*)t->data)) / Table_Step(self));
+    uint64_t slot = (((char*)key) - ((char*)t->data)) / Table_Step(self);
+    if (key is Table_Key(t, slot)) { return Table_Val(self, slot); }
   }
   
   key = cast(key, t->ktype);
